@@ -171,7 +171,7 @@ func (e *Engine) verifyFunc(bc *BoundContract) (res *FuncResult) {
 		}
 		for _, fname := range bc.C.Fresh {
 			if rv, ok := rvars[fname]; ok && rv.t != nil && rv.t.sort == SLoc {
-				cx.newObligation("ensures", "fresh-"+fname, "result "+fname+" is a freshly allocated object", fmt.Sprintf("%s:%d", bc.C.File, bc.C.Line), exitReach, b.mk("(_ is New)", SBool, rv.t), bc.C.Props)
+				cx.newObligation("ensures", "fresh-"+fname, "result "+fname+" is a freshly allocated object", fmt.Sprintf("%s:%d", bc.C.File, bc.C.Line), exitReach, b.Or(b.IsNil(rv.t), b.mk("(_ is New)", SBool, rv.t)), bc.C.Props)
 			}
 		}
 		// frame
